@@ -1156,18 +1156,124 @@ def run_clockseq(pr):
                     obs['trace'].append(['sent', st[1], None, str(parse_packet(captured[n0])[1])])
         obs['done'] = True
 
+    obs['bystanders'] = [[] for _ in pr.get('bystanders', [])]
+
+    def bystander(j, spec):
+        # another routine PENDING on the same clock while its tempo map is changed
+        def bbody(inval):
+            _, clk_ = inval
+            obs['bystanders'][j].append([fr(main.current_tt._seconds), fr(clk_.beats)])
+            yield num(spec['offset'])
+            for _i in range(spec['n']):
+                obs['bystanders'][j].append([fr(main.current_tt._seconds), fr(clk_.beats)])
+                yield num(spec['delta'])
+            obs['bystanders'][j].append([fr(main.current_tt._seconds), fr(clk_.beats)])
+            obs['bdone'] = obs.get('bdone', 0) + 1
+        return bbody
+
     def root(inval):
         yield num(pr['start'])
         Routine(body).play(clock, 0)
+        for j, spec in enumerate(pr.get('bystanders', [])):
+            Routine(bystander(j, spec)).play(clock, 0)
     with lock:
         Routine(root).play(SystemClock)
     if MODE == 'nrt':
         main.process(0)
     else:
         deadline = time.time() + 6.0
-        while time.time() < deadline and not obs['done']:
+        while time.time() < deadline and not (obs['done'] and obs.get('bdone', 0) >= len(pr.get('bystanders', []))):
             time.sleep(0.01)
         clock.stop()
+    obs['all_done'] = bool(obs['done'] and obs.get('bdone', 0) >= len(pr.get('bystanders', [])))
+    return obs
+
+
+# ---------------------------------------------------------------- round 8: AppClock tasks (RT) with other entries queued on AppClock
+def run_appclock(pr):
+    """RT only.  Plain functions and a routine on AppClock (the drifting Scheduler), several queued at once, some due in the same tick;
+    every task records its logical time, the clock reading it sees, and sends a bundle that is read back."""
+    lock = main._main_lock
+    addr = NetAddr('127.0.0.1', 57110)
+    captured = []
+    main._osc_interface._send = lambda msg, target: captured.append(bytes(msg.dgram))
+    obs = {'tasks': [], 'tasks_sched': [], 'osc_offset': str(SystemClock._elapsed_osc_offset), 'done': 0}
+    lat = num(pr['lat'])
+
+    def record(name, lower):
+        n0 = len(captured)
+        T = main.current_tt._seconds
+        addr.send_bundle(lat, ['/m', 1])
+        obs['tasks'].append({'name': name, 'T': fr(T), 'lower': lower, 'now': fr(main.elapsed_time()),
+                             'tag': str(parse_packet(captured[n0])[1])})
+
+    def make_f(i, d):
+        def f():
+            record('function %d' % i, None)
+            obs['done'] += 1
+        return f
+
+    def rbody(inval):
+        low = None
+        for i in range(pr['routine_steps']):
+            record('routine step %d' % i, low)
+            low = fr(Fraction(main.elapsed_time()) + Fraction(pr['routine_delta']))     # re-scheduled at (a later reading) + delta
+            yield num(pr['routine_delta'])
+        obs['done'] += 1
+
+    expected = 1
+    for i, d in enumerate(pr['delays']):
+        before = main.elapsed_time()
+        AppClock.sched(num(d), make_f(i, d))
+        after = main.elapsed_time()
+        # the scheduler read the clock between the two readings: scheduled time within [before + d, after + d]
+        obs['tasks_sched'].append([i, fr(Fraction(before) + Fraction(d)), fr(Fraction(after) + Fraction(d))])
+        expected += 1
+    Routine(rbody).play(AppClock)
+    deadline = time.time() + 6.0
+    while time.time() < deadline and obs['done'] < expected:
+        time.sleep(0.01)
+    obs['completed'] = obs['done'] >= expected
+    with lock:
+        AppClock.clear()
+    return obs
+
+
+# ---------------------------------------------------------------- round 8: sends from the main thread racing a slow task on a clock thread
+def run_race(pr):
+    """RT only.  Slow plain functions run on a clock thread (SystemClock, a TempoClock, AppClock) while the main thread -- WITHOUT
+    holding the library's lock, as user code -- keeps sending bundles; each send is bracketed by two clock readings of the harness."""
+    lock = main._main_lock
+    addr = NetAddr('127.0.0.1', 57110)
+    captured = []
+    main._osc_interface._send = lambda msg, target: captured.append(bytes(msg.dgram))
+    obs = {'sends': [], 'osc_offset': str(SystemClock._elapsed_osc_offset), 'slow_ran': 0}
+    host = pr['host']
+    tclock = TempoClock(num(pr['tempo'])) if host == 'T' else None
+    clock = SystemClock if host == 'S' else AppClock if host == 'A' else tclock
+
+    def slow():
+        t_end = time.time() + pr['busy_ms'] / 1000.0
+        while time.time() < t_end:          # a task that takes some time (the clock thread holds the main lock meanwhile)
+            time.sleep(0.001)
+        obs['slow_ran'] += 1
+        return None
+    for i in range(pr['ntasks']):
+        clock.sched(num(pr['gap']) * (i + 1), slow)
+    t_stop = time.time() + float(Fraction(pr['gap'])) * (pr['ntasks'] + 1) / (float(Fraction(pr['tempo'])) if host == 'T' else 1.0) + 0.05
+    lat = num(pr['lat'])
+    while time.time() < t_stop and len(obs['sends']) < 400:
+        n0 = len(captured)
+        before = main.elapsed_time()
+        addr.send_bundle(lat, ['/m', 1])
+        after = main.elapsed_time()
+        obs['sends'].append([fr(before), str(parse_packet(captured[n0])[1]), fr(after)])
+        time.sleep(0.002)
+    if tclock is not None:
+        tclock.stop()
+    with lock:
+        SystemClock.clear()
+        AppClock.clear()
     return obs
 
 
@@ -1176,7 +1282,8 @@ STUCK_AFTER = 90.0      # every wait of this runner is bounded by 8 s; an item t
 
 def main_():
     payload = json.load(open(sys.argv[1]))
-    results = {'out': [], 'probes_out': [], 'alongside_out': [], 'clumps_out': [], 'msgnest_out': [], 'nextdrive_out': [], 'clockseq_out': []}
+    results = {'out': [], 'probes_out': [], 'alongside_out': [], 'clumps_out': [], 'msgnest_out': [], 'nextdrive_out': [], 'clockseq_out': [],
+               'appclock_out': [], 'race_out': []}
     state = {'t': time.time(), 'key': None, 'item': None, 'finished': False}
 
     def dump():
@@ -1198,7 +1305,8 @@ def main_():
         rt_setup(payload.get('seed', 1))
     plan = [('cases', 'out', (lambda pr: run_nrt(pr, payload.get('share_lists', False))) if MODE == 'nrt' else run_rt),
             ('probes', 'probes_out', run_probe), ('alongside', 'alongside_out', run_alongside), ('clumps', 'clumps_out', run_clump),
-            ('msgnest', 'msgnest_out', run_msgnest), ('nextdrive', 'nextdrive_out', run_nextdrive), ('clockseq', 'clockseq_out', run_clockseq)]
+            ('msgnest', 'msgnest_out', run_msgnest), ('nextdrive', 'nextdrive_out', run_nextdrive), ('clockseq', 'clockseq_out', run_clockseq),
+            ('appclock', 'appclock_out', run_appclock), ('race', 'race_out', run_race)]
     for key, okey, fn_ in plan:
         for pr in payload.get(key, []):
             state.update(t=time.time(), key=okey, item=pr)
